@@ -499,6 +499,9 @@ func (r *Rules) toProto(f *Field) (*validate.FieldRules, error) {
 			return nil, fmt.Errorf("unknown format %q", r.Format)
 		}
 		scalarTarget.Type = &validate.FieldRules_String_{String_: sr}
+	case "bytes":
+		// lengths count RAW bytes (not the characters of the base64 / hex text on the wire)
+		scalarTarget.Type = &validate.FieldRules_Bytes{Bytes: &validate.BytesRules{MinLen: r.MinLen, MaxLen: r.MaxLen, Len: r.Len}}
 	case "int32", "sint32", "sfixed32", "int64", "sint64", "sfixed64", "uint32", "fixed32", "uint64", "fixed64", "float", "double":
 		if err := setNumericRules(scalarTarget, elemKind, r); err != nil {
 			return nil, err
